@@ -156,9 +156,9 @@ def glue_replay(kind, k):
                 out = k._adaptive_transition(jax.random.PRNGKey(int(rng.integers(1 << 30))), ks, st, K.epoch_state(1, tie))
                 acc, err = float(out.info.acceptance_prob), int(out.info.error_code)
                 m = tie + 1.0
-                H = 0.2 + (k.da_target_accept - acc)
-                x = 0.4 - (np.sqrt(m) / k.da_gamma) / (m + k.da_t0) * H
-                eta = m ** (-k.da_kappa)
+                H = 0.2 + (K.DA["da_target_accept"] - acc)
+                x = 0.4 - (np.sqrt(m) / K.DA["da_gamma"]) / (m + K.DA["da_t0"]) * H
+                eta = m ** (-K.DA["da_kappa"])
                 want = dict(step_size=np.exp(x), error_sum=H, log_avg_step_size=eta * x + (1 - eta) * (-0.3), mu=0.4)
                 got = {f: float(getattr(out.kernel_state, f)) for f in FIELDS}
                 dev = max(abs(got[f] - want[f]) / (1 + abs(want[f])) for f in FIELDS)
@@ -227,7 +227,7 @@ def main():
         def adapts(V, kin=kin, sks=sks, other=other, et=et, tie=tie, k=k, rng_ok=rng_ok):
             o = V.out["ks"]
             acc = cells(V.out["acc"])[0]
-            want = hg_recurrence(V, kin, acc, tie, V.c(np.float32(k.da_target_accept)), V.c(np.float32(k.da_gamma)), V.c(np.float32(k.da_kappa)), k.da_t0)
+            want = hg_recurrence(V, kin, acc, tie, V.c(np.float32(K.DA["da_target_accept"])), V.c(np.float32(K.DA["da_gamma"])), V.c(np.float32(K.DA["da_kappa"])), K.DA["da_t0"])
             return rng_ok + [z3.Or(et == 1, et == 2)], z3.And(*[cells(getattr(o, f))[0] == want[f] for f in FIELDS],
                                                           *[all_eq(getattr(o, f), getattr(sks, f)) for f in other]), ite_leaves(acc)
         obs.append(Obligation(f"{nm}: in adaptation epochs the transition applies one dual-averaging step with the kernel's constants and the reported acceptance probability",
@@ -253,7 +253,7 @@ def main():
         def glue_goal(V, kin=kin, sks=sks, other=other, tie=tie, k=k):
             o = V.out["ks"]
             acc = cells(V.out["acc"])[0]
-            want = hg_recurrence(V, kin, acc, tie, V.c(np.float32(k.da_target_accept)), V.c(np.float32(k.da_gamma)), V.c(np.float32(k.da_kappa)), k.da_t0)
+            want = hg_recurrence(V, kin, acc, tie, V.c(np.float32(K.DA["da_target_accept"])), V.c(np.float32(K.DA["da_gamma"])), V.c(np.float32(K.DA["da_kappa"])), K.DA["da_t0"])
             return [tie >= 0, kin["step_size"] > 0], z3.And(*[cells(getattr(o, f))[0] == want[f] for f in FIELDS], *[all_eq(getattr(o, f), getattr(sks, f)) for f in other])
         obs.append(Obligation(f"{type(k).__name__}: adaptive transition = inner transition (arbitrary error code / acceptance probability / moved flag) followed by one dual-averaging step with the reported acceptance probability",
                               [enc], glue_goal, signature=f"{type(k).__name__}:adapts-any-error-code", replay=glue_replay(kind, k)))
